@@ -292,6 +292,26 @@ def check_expr(ctx, e):
     if ' title="%s"' % s not in b or ' data-v="%s"' % s not in b:
         ctx.violation("html-attr-not-verbatim", "HTML() attribute value changed on its way through consolidate_attrs()", dict(wit, output=b[:600]))
         return False
+    # the same value given later: add_class() / add_style() / item assignment / update()
+    t1 = ht.div("x")
+    t1.add_class(v)
+    t2 = ht.span("y", class_="p & q")
+    t2.add_class(v, prepend=True)
+    t3 = ht.div("x")
+    t3.attrs["class"] = v
+    t4 = ht.div("x", class_="p & q")
+    t4.attrs.update({"class": v}, class_=v)
+    late = [(t1, ' class="%s"' % s, "add_class"), (t2, ' class="%s p &amp; q"' % s, "add_class(prepend)"),
+            (t3, ' class="%s"' % s, "attrs[...] = "), (t4, ' class="%s %s"' % (s, s), "attrs.update")]
+    if s.endswith(";"):
+        late.append((ht.div("x").add_style(v), ' style="%s"' % s, "add_style"))
+        late.append((ht.div("x", style="a: 'b';").add_style(v, prepend=True), ' style="%s a: &apos;b&apos;;"' % s, "add_style(prepend)"))
+    for t_, want, what in late:
+        c = t_.get_html_string()
+        ctx.count("oracle.late_attr_route")
+        if want not in c:
+            ctx.violation("html-attr-not-verbatim", "HTML() attribute value given through %s is not emitted verbatim" % what, dict(wit, output=c[:600], expected=want[:600]))
+            return False
     return True
 
 
